@@ -141,7 +141,21 @@ def cached_tool(key_parts, cmd_builder, out_suffix, src_text=None, src_suffix='.
     if os.path.exists(meta):
         with open(meta) as f:
             m = json.load(f)
-        return out, m['rc'], m['stderr']
+        err = m.get('stderr', '')
+        if not m.get('stderr_file') and len(err) >= 200000:
+            # an entry written before diagnostics were kept in full: it may have lost its beginning
+            os.remove(meta)
+            return cached_tool(key_parts, cmd_builder, out_suffix, src_text, src_suffix)
+        if m.get('stderr_file'):
+            # (batteries of compile-fail witnesses produce megabytes of diagnostics: a cached run must give
+            # back ALL of them, the first as well as the last)
+            try:
+                with open(os.path.join(d, m['stderr_file']), errors='replace') as f:
+                    err = f.read()
+            except OSError:
+                os.remove(meta)
+                return cached_tool(key_parts, cmd_builder, out_suffix, src_text, src_suffix)
+        return out, m['rc'], err
     src = None
     if src_text is not None:
         src = os.path.join(d, key + src_suffix)
@@ -154,8 +168,12 @@ def cached_tool(key_parts, cmd_builder, out_suffix, src_text=None, src_suffix='.
     elif rc == 0:
         with open(out, 'w') as f:
             f.write(so)
+    errname = key + '.stderr'
+    with open(os.path.join(d, errname + '.tmp%d' % os.getpid()), 'w', errors='replace') as f:
+        f.write(se)
+    os.replace(os.path.join(d, errname + '.tmp%d' % os.getpid()), os.path.join(d, errname))
     with open(meta + '.tmp%d' % os.getpid(), 'w') as f:
-        json.dump({'rc': rc, 'stderr': se[-200000:], 'cmd': cmd_builder(src, out)}, f)
+        json.dump({'rc': rc, 'stderr_file': errname, 'cmd': cmd_builder(src, out)}, f)
     os.replace(meta + '.tmp%d' % os.getpid(), meta)
     return out, rc, se
 
